@@ -1,4 +1,8 @@
+import os, re
 from kanirun import H, FAST
+from mirsym import mir, smt
+from mirsym_run import Q
+from common import *
 
 LEVEL = "model_checking"
 EXPLANATION = ("Bounded model checking (Kani/CBMC) of the real cas_object chunk-header codec and BG4 byte grouping over symbolic inputs; "
@@ -22,3 +26,44 @@ KANI = [
     H("hk_cas", "c07::bg4_roundtrip_14", "same, length 14 (residue 2)", unwind=8, tier="thorough", functions=["bg4_*"], bounds="|d| = 14", timeout=1800),
     H("hk_cas", "c07::bg4_roundtrip_15", "same, length 15 (residue 3)", unwind=8, tier="thorough", functions=["bg4_*"], bounds="|d| = 15", timeout=1800),
 ]
+
+
+def build_footer_loops(fns):
+    """CasObjectInfoV1::deserialize reads exactly the declared number of hashes, boundaries and unpacked offsets: the three
+    read loops range over 0..num_chunks (the declared counts), not over a preallocation bound."""
+    f = mir.find_fn(fns, r"cas_object_format::<impl at cas_object/src/cas_object_format.rs:3\d\d[^>]*>::deserialize$")
+    counts = set()
+    for name in ("num_chunks_2", "num_chunks_3"):
+        if name not in f.debug:
+            raise LookupError("deserialize: %s not found" % name)
+        counts.add(f.debug[name][0])
+    ends = []
+    for bb in f.order:
+        for st in f.blocks[bb][0]:
+            m = re.search(r"= std::ops::Range::<u32> \{ start: const 0_u32, end: (?:copy|move) (_\d+) \}", st)
+            if m:
+                ends.append(m.group(1))
+    sc = smt.Script("c07_footer_read_loops")
+    sc.query("the footer parser has one read loop per section array (hashes, boundaries, unpacked offsets)", ["false"] if len(ends) == 3 else ["true"])
+    for i, e in enumerate(ends):
+        sc.query("read loop %d iterates over the declared chunk count" % i, ["false"] if e in counts else ["true"])
+    sc.query("witness: loops found", ["true"], expect="sat", kind="witness")
+    return [sc]
+
+
+def replay_many(model, fnd, prop):
+    env = base_env()
+    env["CARGO_TARGET_DIR"] = os.path.join(BUILD, "replay_target")
+    rc, out = sh(["cargo", "test", "--offline", "--test", "c07_many_chunks_roundtrip"], cwd=os.path.join(VERIF, "replay"), env=env, timeout=2400,
+                 log=os.path.join(LOGS, "replay_c07.log"))
+    path = os.path.join(VERIF, "replay", "tests", "c07_many_chunks_roundtrip.rs")
+    if "test result: FAILED" in out:
+        m = re.search(r"C07 violated: [^\n]*", out)
+        return True, path, m.group(0)[:240] if m else "native replay fails"
+    if re.search(r"test result: ok. [1-9]\d* passed", out):
+        return False, path, "native replay passes: xorbs with up to 2500 chunks round-trip"
+    return None, path, "native replay inconclusive (rc=%s)" % rc
+
+
+SMT = [Q("c07_footer_read_loops", "footer parser reads as many entries as declared", "cas_object", build_footer_loops,
+         functions=["cas_object::cas_object_format::CasObjectInfoV1::deserialize"], bounds="structure of the function", replay=replay_many, solvers=("z3",))]
